@@ -74,7 +74,10 @@ class C19(object):
                     ts = [float(rng.randint(0, 5)) for _ in range(m)]
                 else:
                     ts = rng.sample([i / 8.0 for i in range(-80, 81)], m)
-                c.update({'ts': ts, 'bins': rng.randint(1, 6), 'style': style, 'ties': ties})
+                # ranges from 1e-3 to 1e7: the slack 1e-12 in uniform_binning's denominator is absorbed for big ranges
+                scale = rng.choice([1.0, 1.0, 2.0 ** -10, 1024.0, 2.0 ** 20])
+                ts = [x * scale for x in ts]
+                c.update({'ts': ts, 'bins': rng.randint(1, 6), 'style': style, 'ties': ties, 'scale': scale})
             yield c
 
     def shrink(self, case):
@@ -283,17 +286,35 @@ class C19(object):
         elif style == 'uniform':
             lo, hi = ts.min(), ts.max()
             for x, l in zip(ts, lab):
-                want = int(bins * (x - lo) / (hi - lo + 1e-12))
+                want = min(int(bins * (x - lo) / (hi - lo + 1e-12)), bins - 1)   # equal-width bins; the maximum is in the last one
                 if l != want:
                     r.oracle_fail = 'uniform bin of %r is %d, threshold formula gives %d' % (x, l, want)
                     break
-            # correspondence with Core/Examples.lean `uniformBin` on exact rationals (samples are dyadic)
-            from fractions import Fraction
+            # correspondence with Core/Examples.lean `uniformBin` on exact rationals (samples are dyadic). The model gets
+            # the denominator the code actually divides by (max - min + 1e-12 as rounded by the float addition); samples
+            # whose exact quotient is within 1e-9 of an integer without being one are not compared (float division).
             flo, fhi = Fraction(float(lo)), Fraction(float(hi))
-            mo = drv.call('ubin', [bins, q(flo), q(fhi - flo), q(Fraction(1e-12)), [q(Fraction(float(x))) for x in ts]])
-            if [int(v) for v in mo] != lab:
-                r.mismatch = 'uniform bins %s, model %s' % (lab, mo)
-        elif not case['ties']:
+            den = Fraction(float(hi - lo + 1e-12))
+            mo = drv.call('ubin', [bins, q(flo), q(fhi - flo), q(den - (fhi - flo)), [q(Fraction(float(x))) for x in ts]])
+            for x, l, ml in zip(ts, lab, mo):
+                quo = bins * (Fraction(float(x)) - flo) / den
+                near = abs(quo - round(quo)) < Fraction(1, 10 ** 9) and quo != round(quo)
+                if int(ml) != l and not near:
+                    r.mismatch = 'uniform bin of %r: impl %d, model %d' % (x, l, int(ml))
+                    break
+        if style == 'maxent' and not r.oracle_fail:
+            # correspondence with Core/Binning.lean `maxentBinning` (exact percentiles); a sample within 1e-9 (relative to
+            # the data range) of an interior threshold may fall on either side in floating point and is not compared
+            mlab, ths = drv.call('mbin', [bins, [q(Fraction(float(x))) for x in ts]])
+            ths = [unq(t) for t in ths]
+            span = max(Fraction(float(ts.max())) - Fraction(float(ts.min())), Fraction(1, 10 ** 6))
+            for x, l, ml in zip(ts, lab, mlab):
+                fx = Fraction(float(x))
+                near = any(abs(fx - t) <= span / 10 ** 9 for t in ths[1:-1])
+                if ml is None or (int(ml) != l and not near):
+                    r.mismatch = 'maxent bin of %r: impl %d, model %s' % (x, l, ml)
+                    break
+        if style == 'maxent' and not case['ties'] and not r.oracle_fail:
             cnt = [lab.count(i) for i in range(bins)]
             n = len(lab)
             # percentile thresholds (linear interpolation) put each bin within one sample of n/bins
